@@ -10,11 +10,11 @@ import impl
 SHARD = 150
 
 HDR = core.CASE_HDR + (
-    "From Bandit Require Import Gen.Constants Gen.Blacklists Gen.Registry Plugins.All.\n"
+    "From Bandit Require Import Gen.Constants Gen.Blacklists Gen.Registry Gen.Regexes %s.\n"
     "Definition fname : pstr := %s.\n"
     "Record scase := SCase { s_mod : node; s_nosec : nosec_map; s_sel : list pstr; s_cfg : list (pstr * jv) }.\n"
     "Definition run1 (x : scase) : scan_out :=\n"
-    "  scan consts_gen (build_tests registry all_plugins defaults (s_cfg x) (fun i => mem_pstr i (s_sel x)) blacklist)\n"
+    "  scan consts_gen (build_tests registry %s defaults (s_cfg x) (fun i => mem_pstr i (s_sel x)) blacklist)\n"
     "       (s_nosec x) fname None (s_mod x).\n"
 )
 
@@ -47,7 +47,7 @@ def jv(v):
     raise ValueError("config value %r" % (v,))
 
 
-def run_cases(progs, R=None, label="scan"):
+def run_cases(progs, R=None, label="scan", plugins=("Plugins.All", "all_plugins")):
     """progs: list of dicts {src: bytes|str, include: [...]|None, exclude: [...]|None, ignore_nosec: bool}.
     Returns (outs, mismatches) where outs[i] are implementation observables and mismatches is a list of
     (i, model_output_text)."""
@@ -56,7 +56,13 @@ def run_cases(progs, R=None, label="scan"):
     for p in progs:
         src = p["src"]
         data = src if isinstance(src, bytes) else src.encode("utf-8", "surrogatepass")
-        mgr = impl.make_manager(p.get("include"), p.get("exclude"), None, p.get("ignore_nosec", False))
+        cfgfile = None
+        if p.get("config") is not None:
+            import yaml
+            cfgfile = os.path.join(impl.scratch(), "cfg.yaml")
+            with open(cfgfile, "w") as f:
+                yaml.safe_dump(p["config"], f)
+        mgr = impl.make_manager(p.get("include"), p.get("exclude"), cfgfile, p.get("ignore_nosec", False))
         o = impl.scan_bytes(data, mgr=mgr)
         o["filter"] = effective_filter(mgr)
         o.pop("mgr", None)
@@ -72,10 +78,11 @@ def run_cases(progs, R=None, label="scan"):
             continue
         cases.append("(SCase %s %s %s %s, %s)" % (
             term, impl.nosec_map_coq(o["nosec_lines"]), L.lst([L.pstr(x) for x in o["filter"]], "pstr"),
-            "(@nil (pstr * jv))", impl.scan_out_coq(o)))
+            L.lst([L.pair(L.pstr(k), jv(v)) for k, v in (p.get("config") or {}).items()], "pstr * jv"),
+            impl.scan_out_coq(o)))
     idx = [i for i, c in enumerate(cases) if c is not None]
     files = []
-    hdr = HDR % L.pstr("t.py")
+    hdr = HDR % (plugins[0], L.pstr("t.py"), plugins[1])
     for s in range(0, len(idx), SHARD):
         chunk = idx[s:s + SHARD]
         body = hdr + "Definition cases : list (scase * scan_out) := %s.\n" % L.lst(
